@@ -409,6 +409,11 @@ def concat_text(value):
 
 
 def evaluate_concat(lval, rval):
+    # an error operand is the result of the concatenation (the left one first)
+    if isinstance(lval, error.XLError):
+        return lval
+    if isinstance(rval, error.XLError):
+        return rval
     return concat_text(lval) + concat_text(rval)
 
 
